@@ -36,24 +36,24 @@ Notation "P ~> Q" := (leadsto r P Q) (at level 70).
 Notation ensures := (lt_ensures guard eff r (Inv cap) Inv_run).
 Notation ensures_s := (lt_ensures_s guard eff r (Inv cap) Inv_run).
 Let Fwl : sfair g_wl r := proj1 (proj2 (proj2 (proj2 F))).
-Let Fbody : sfair g_body r := proj2 (proj2 (proj2 (proj2 (proj2 (proj2 (proj2 F)))))).
+Let Fbody : sfair g_body r := proj1 (proj2 (proj2 (proj2 (proj2 (proj2 (proj2 (proj2 F))))))).
 Let Wwl := sfair_fair guard eff r g_wl Fwl.
 Let Wbody := sfair_fair guard eff r g_body Fbody.
 Notation rl_release := (CliL2.rl_release cap cap_pos r F R0 NS).
 
 Lemma lacq_unless : forall n s a, Inv cap s ->
-  (done s = true /\ wl s = LAcq) /\ wm s = n -> guard a s ->
-  ((done (eff a s) = true /\ wl (eff a s) = LAcq) /\ wm (eff a s) = n) \/ iterQ n (eff a s).
+  (True /\ wl s = LAcq) /\ wm s = n -> guard a s ->
+  ((True /\ wl (eff a s) = LAcq) /\ wm (eff a s) = n) \/ iterQ n (eff a s).
 Proof. intros n; wunf; cens1_w1. Qed.
 
 Lemma it_LAcq : forall n,
-  (fun s => (done s = true /\ wl s = LAcq) /\ wm s = n) ~> iterQ n.
+  (fun s => (True /\ wl s = LAcq) /\ wm s = n) ~> iterQ n.
 Proof.
   intros n. apply (ensures_s g_wl); auto.
   - apply lacq_unless.
   - wunf; cens2.
   - intros i HP.
-    assert (forall s, Inv cap s -> ((done s = true /\ wl s = LAcq) /\ wm s = n) -> rl_hold s <> HX ->
+    assert (forall s, Inv cap s -> ((True /\ wl s = LAcq) /\ wm s = n) -> rl_hold s <> HX ->
               exists a, g_wl a /\ guard a s) as En.
     { intros s ((I1 & _ & _ & _) & _ & _) ((Hd & Hw) & Hn) Hr. pose proof (i_lx _ I1) as Hl.
       unfold wl_hold in Hl. rewrite Hw in Hl.
@@ -63,7 +63,7 @@ Proof.
     1,3: exists i; split; auto; right; apply En; auto using Inv_run; congruence.
     destruct (lt_unless guard eff r (Inv cap) Inv_run _ _ _ _ (lacq_unless n) rl_release i)
       as (j & Hj & [Hq|(HP' & Hr)]).
-    + split; auto. split; auto. apply HP.
+    + split; [exact HP | split; auto].
     + exists j; auto.
     + exists j; split; auto. right. apply En; auto using Inv_run.
 Qed.
